@@ -625,7 +625,10 @@ FINDINGS = {
 
 # how the backends are known to fail on programs that only the (unsound) real checker accepts
 FAILURE_SIGNATURES = (r"range (end|start) index \d+ out of range for slice|value (reg\(\d+\)|extfun .*) not found|Invalid indirect callable|"
-                      r"invalid number of return value|Failed to load WASM module|Failed to call function|^crash:|value constructor .* not found|value function \d+ not found|called `Option::unwrap\(\)` on a `None` value")
+                      r"invalid number of return value|Failed to load WASM module|Failed to call function|^crash:|value constructor .* not found|value function \d+ not found|called `Option::unwrap\(\)` on a `None` value|"
+                      # mirgen re-infers the type of a sub-expression of a program the checker should not have accepted (seen for a tuple piped
+                      # into a let-bound lambda, T5, thorough tier seed 5)
+                      r"type inference failed for expr")
 
 TOLERATED = {
     "wrong-field": "T1", "pattern-field": "T1", "pattern-record": "T1", "record-drop-field": "T1", "record-rename-field": "T1",
